@@ -229,7 +229,7 @@ def run(ctx):
                 for j in range(3):
                     for k in range(3):
                         if len({i, j, k}) == 3 and P[f'{i}{j}'] == 'T' and P[f'{j}{k}'] == 'T' and P[f'{i}{k}'] != 'T':
-                            through_any = has(hs[j], 'any') or has(hs[i], 'any') or has(hs[k], 'any')
+                            through_any = any(has(h_, 'any') or '["cls", "object"]' in json.dumps(h_) for h_ in (hs[i], hs[j], hs[k]))     # the class object admits everything, like Any
                             failures += report(ctx, {'clause': 'transitivity', 'through_any': through_any,
                                                      'annotated': any(has(h, 'annot') for h in hs)},
                                                {'A': hs[i], 'B': hs[j], 'C': hs[k], 'A<=C': P[f'{i}{k}']},
